@@ -118,6 +118,9 @@ const TARGETS: &[Target] = &[
                       ("maybe_replace_delimiter", "gen_maybe_replace")],
              deps: &["trim", "trim_regex", "compress_delimiter", "compress_regex", "fill_fields", "fill_regex", "ubl_complement", "ubl_unpack", "ub_try_into_range", "maybe_replace"],
              imports: "Model.Scan Model.Regex Model.Opt Model.Utf8 Model.Json Model.CutStr Tie.RsOpt Tie.RsStr Tie.RsList Tie.RsScan Tie.RsRegex Tie.RsCut", ret_muts: false, fuel: "" },
+    Target { name: "cut_lines", file: "src/cut_lines.rs", impl_trait: None, impl_self: None, func: "cut_lines",
+             calls: &[("cut_str", "gen_cut_str")], deps: &["cut_str"],
+             imports: "Model.Scan Model.Regex Model.Opt Model.Utf8 Model.CutStr Model.CutLines Tie.RsOpt Tie.RsStr Tie.RsList Tie.RsRegex Tie.RsCut Tie.RsLines", ret_muts: false, fuel: "" },
     Target { name: "fast_try_from", file: "src/fast_lane.rs", impl_trait: Some("TryFrom"), impl_self: Some("FastOpt"),
              func: "try_from", calls: &[], deps: &[], imports: "Model.Scan Model.Regex Model.Opt Tie.RsOpt", ret_muts: false, fuel: "" },
     Target { name: "stream_try_from", file: "src/stream.rs", impl_trait: Some("TryFrom"), impl_self: Some("StreamOpt"),
@@ -148,6 +151,8 @@ struct Cx {
     rebind_ok: bool,
     /// parameters of type `&mut W` (W: Write): what is written to them is accumulated and returned with the result
     writers: Vec<String>,
+    /// parameters of type `&mut R` (R: BufRead): the input that is left
+    readers: Vec<String>,
     /// the state tuple of the enclosing `for` loops, for `break`
     loop_state: Vec<String>,
     fuel: String,
@@ -315,7 +320,7 @@ fn ty_of_type(t: &Type) -> (String, Ty) {
                 "StreamOpt" => ("gsopt".into(), Ty::StreamRec),
                 "Trim" => ("trimk".into(), Ty::Trim),
                 "Regex" => ("(rx * bool)%type".into(), Ty::Regex),
-                "u8" => ("byte".into(), Ty::Byte),
+                "u8" | "char" => ("byte".into(), Ty::Byte),
                 "str" | "String" => ("bytes".into(), Ty::Str),
                 "BoundOrFiller" => ("bof".into(), Ty::Other),
                 "Range" => ("(Z * Z)%type".into(), Ty::Range),
@@ -419,6 +424,7 @@ impl Cx {
                 "clone" | "into_iter" | "iter" | "as_bytes" | "as_ref" | "to_owned" | "as_deref" | "cloned" | "rev" | "as_slice" => self.ty(&m.receiver),
                 "enumerate" => Ty::List(Box::new(Ty::Pair(Box::new(Ty::Usize), Box::new(match self.ty(&m.receiver) { Ty::List(t) => *t, _ => Ty::Other })))),
                 "len" => Ty::Usize,
+                "strip_suffix" => Ty::Opt(Box::new(self.ty(&m.receiver))),
                 "split_once" => Ty::Opt(Box::new(Ty::Pair(Box::new(Ty::Str), Box::new(Ty::Str)))),
                 "find_iter" if self.ty(&m.receiver) == Ty::Regex => Ty::List(Box::new(Ty::Range)),
                 "find_iter" => Ty::List(Box::new(Ty::Usize)),
@@ -439,6 +445,7 @@ impl Cx {
             Expr::Call(c) if matches!(&*c.func, Expr::Path(p) if path_str(&p.path) == "memchr::memchr_iter") => Ty::List(Box::new(Ty::Usize)),
             Expr::Call(c) => match &*c.func {
                 Expr::Path(p) if (path_str(&p.path) == "Some" || path_str(&p.path) == "Ok") && c.args.len() == 1 => Ty::Opt(Box::new(self.ty(&c.args[0]))),
+                Expr::Path(p) if path_str(&p.path).ends_with("str::from_utf8") => Ty::Opt(Box::new(Ty::Str)),
                 Expr::Path(p) => self.call_ty.get(&path_str(&p.path)).cloned().unwrap_or(Ty::Other),
                 _ => Ty::Other },
             Expr::Binary(b) => match b.op {
@@ -499,7 +506,7 @@ impl Cx {
                 let from = self.ty(&c.expr);
                 let to = ty_of_type(&c.ty).1;
                 match (&from, &to) {
-                    (Ty::I32, Ty::I32) | (Ty::Usize, Ty::Usize) => inner,
+                    (Ty::I32, Ty::I32) | (Ty::Usize, Ty::Usize) | (Ty::Byte, Ty::Byte) => inner,
                     (Ty::Usize, Ty::I32) => format!("(cast_i32 {})", inner),
                     (Ty::I32, Ty::Usize) => format!("(cast_usize {})", inner),
                     _ => return Err(format!("cast {:?} -> {:?}", from, to)),
@@ -557,6 +564,7 @@ impl Cx {
                         format!("(parse_i32 {})", recv)
                     }
                     ("first", 0) => format!("(hd_error {})", recv),
+                    ("strip_suffix", 1) if matches!(self.ty(&m.receiver), Ty::Str | Ty::Bytes) && self.ty(&m.args[0]) == Ty::Byte => format!("(strip_suffix_byte {} {})", args[0], recv),
                     ("replace", 2) if matches!(self.ty(&m.receiver), Ty::Bytes | Ty::Str) => format!("(bytes_replace {} {} {})", args[0], args[1], recv),
                     ("unwrap_or", 1) => format!("(match {} with Some v_ => v_ | None => {} end)", recv, args[0]),
                     ("is_none", 0) | ("is_err", 0) => format!("(match {} with None => true | _ => false end)", recv),
@@ -570,11 +578,13 @@ impl Cx {
                 let f = match &*c.func { Expr::Path(p) => path_str(&p.path), _ => return Err("call of a non-path".into()) };
                 if self.calls.contains_key(&f) { return Ok(None); }
                 if f == "Err" { return Ok(Some("None".to_string())); }
+                if f == "Vec::with_capacity" { return Ok(Some("[]".to_string())); }
                 let mut args = vec![];
                 for a in &c.args { match self.pure(a)? { Some(x) => args.push(x), None => return Ok(None) } }
                 if f == "Err" { "None".to_string() }
                 else if (f.ends_with("Cow::Borrowed") || f.ends_with("Cow::Owned") || f.ends_with("NoExpand")) && args.len() == 1 { args[0].clone() }
                 else if f == "Vec::new" && args.is_empty() { "[]".to_string() }
+                else if f.ends_with("str::from_utf8") && args.len() == 1 { format!("(from_utf8 {})", args[0]) }
                 else if f == "memchr::memchr_iter" && args.len() == 2 { format!("(memchr_iter {} {})", args[0], args[1]) }
                 else if let Some((g, _)) = ctor1(&f) { if args.len() != 1 { return Err("constructor arity".into()); } format!("({} {})", g, args[0]) }
                 else { return Err(format!("call of `{}`", f)); }
@@ -1077,6 +1087,20 @@ impl Cx {
                         }
                     }
                 }
+                if let Expr::MethodCall(m) = &*t.expr {
+                    if m.method == "read_to_end" && m.args.len() == 1 {
+                        if let (Expr::Path(rp), Expr::Reference(ar)) = (&*m.receiver, &m.args[0]) {
+                            if let Expr::Path(bp) = &*ar.expr {
+                                let (rn, bn) = (path_str(&rp.path), path_str(&bp.path));
+                                if self.readers.contains(&rn) && self.muts.contains(&bn) {
+                                    // stdin.read_to_end(&mut buf)?: everything that is left is appended (reads do not fail here: C14's business)
+                                    let c = self.coqname(&bn);
+                                    return Ok(format!("(let {} := ({} ++ {}) in ({} tt))", c, c, ident(&rn), k));
+                                }
+                            }
+                        }
+                    }
+                }
                 let rk = self.retk();
                 self.tr(&t.expr, &format!("(fun {} => match {} with Some {} => ({} {}) | None => ({} None) end)", r, r, v, k, v, rk))
             }
@@ -1489,7 +1513,7 @@ fn find_fn<'a>(file: &'a File, t: &Target) -> Option<(&'a Signature, &'a Block, 
 fn translate(t: &Target, sig: &Signature, block: &Block, ret_tys: &HashMap<String, Ty>) -> R<(String, Ty)> {
     let mut cx = Cx { env: vec![], fresh: 0, calls: t.calls.iter().map(|(a, b)| (a.to_string(), b.to_string())).collect(),
                       call_ty: t.calls.iter().filter_map(|(a, b)| ret_tys.get(*b).map(|ty| (a.to_string(), ty.clone()))).collect(),
-                      renames: vec![], tuple_hint: vec![], ret_ty: String::new(), inline_k: false, muts: vec![], rebind_ok: false, writers: vec![], loop_state: vec![], fuel: t.fuel.to_string(), retk_stack: vec![], stage_top: None, stages: vec![] };
+                      renames: vec![], tuple_hint: vec![], ret_ty: String::new(), inline_k: false, muts: vec![], rebind_ok: false, writers: vec![], readers: vec![], loop_state: vec![], fuel: t.fuel.to_string(), retk_stack: vec![], stage_top: None, stages: vec![] };
     cx.inline_k = quote::ToTokens::to_token_stream(block).to_string().contains("let mut ");
     let self_coq = match t.impl_self { Some("Side") => ("side", Ty::Side), Some("UserBounds") => ("ubound", Ty::UB), Some("UserBoundsList") => ("ublist", Ty::Other), Some("FastOpt") => ("gfopt", Ty::Other), Some("StreamOpt") => ("gsopt", Ty::Other), Some("ForwardBounds") => ("gfb", Ty::Other), _ => ("UNKNOWN", Ty::Other) };
     let mut rty = Ty::Other;
@@ -1517,6 +1541,7 @@ fn translate(t: &Target, sig: &Signature, block: &Block, ret_tys: &HashMap<Strin
                 if reader {
                     // stdin: &mut R (R: BufRead): the input that is left to read
                     cx.env.push((name.clone(), Ty::Bytes));
+                    cx.readers.push(name.clone());
                     write!(params, " ({} : bytes)", ident(&name)).unwrap();
                     continue;
                 }
